@@ -447,6 +447,238 @@ def run_c20(ctx):
     run_c20_instr(ctx)
 
 
+def parser_model(ctx, maxtoks, maxpoints):
+    cfg = 'SPECIFICATION Spec\nCONSTANTS\n MaxToks = %d\n MaxPoints = %d\nINVARIANTS P2 P3 P4 EmitToks EmitTree\nCHECK_DEADLOCK FALSE\n' % (maxtoks, maxpoints)
+    cases, st = pv.run_tlc_model("MC_Parser", cfg, ctx.work, workers=14, tag="mc_parser")
+    if "error" in st:
+        raise pv.ToolError("TLC failed on MC_Parser:\n" + st["error"])
+    ctx.stats["states"] += st["states"]; ctx.stats["transitions"] += st["transitions"]; ctx.stats["tlc_runs"].append(st)
+    return cases
+
+
+WS_CHARS = [" ", "\t", "\n", "\r", "\u000b", "\u000c", "\u0085", "\u00a0", "\u1680", "\u2003", "\u2028", "\u3000", "  "]
+ODD_TOKENS = ["(", ")", "(", ")", "INT[", "INT[]", "INT[1,2]", "INT[1,2}", "INT[1,,2]", "INT[\u00e9", "INT[1\u00e9", "BOOL[", "BOOL[1,0,true,false]", "BOOL[TRUE]",
+              "FLOAT[", "FLOAT[1.5,-0.25]", "FLOAT[1e3,nan]", "FLOAT[x]", "\u00e9]", "\u00e9", "na\u00efve", "\u4e2d\u6587", "(x", "x)", "()", "1", "-1", "+1", "007",
+              "2147483647", "2147483648", "-2147483648", "-2147483649", "1.5", "-0.125", ".5", "5.", "1e3", "1E-2", "inf", "-Infinity", "NaN", "nan", "infinit", "1.2.3", "1e", "--1",
+              "TRUE", "FALSE", "true", "INTEGER.+", "CODE.QUOTE", "EXEC.DO*COUNT", "integer.+", "foo", "foo-bar", "x1", "[1,2]", "BOOLVECTOR.AND", "NOOP"]
+
+
+def random_text(g, maxtok):
+    r = g.r
+    toks = []
+    for _ in range(r.randint(0, maxtok)):
+        k = r.random()
+        if k < 0.8:
+            toks.append(r.choice(ODD_TOKENS))
+        elif k < 0.9:
+            toks.append("".join(r.choice("ab(1)[].,-+eE\u00e9") for _ in range(r.randint(1, 8))))
+        else:
+            toks.append(str(g.int()))
+    out = r.choice(["", " ", "\n"])
+    for t in toks:
+        out += t + r.choice(WS_CHARS)
+    return out
+
+
+def run_c03(ctx):
+    q = ctx.tier == "quick"
+    base = dict(ctx.get_base())
+    cases = parser_model(ctx, 3 if q else 5, 1)
+    cs = []
+    for i, c in enumerate(cases):
+        if "text" not in c:
+            continue
+        pre = dict(base); pre["exec"] = []
+        cs.append({"id": "mcparse-%06d" % i, "pre": pre, "acts": [{"a": "parse", "text": c["text"]}]})
+    run_events(ctx, "mc_parser", cs)
+    g = gen.Gen(ctx.seed + 91, ctx.registry)
+    cs = []
+    for i in range(300 if q else 20000):
+        pre = dict(base)
+        pre["exec"] = [] if g.r.random() < 0.7 else [g.item(g.r.randint(1, 4))]
+        cs.append({"id": "randparse-%06d" % i, "pre": pre, "acts": [{"a": "parse", "text": random_text(g, 25)}]})
+    # long tokens and deep nesting (JSON nesting of the recorded tree is limited to ~120 levels; beyond
+    # that only crash-freedom and the frame condition are judged)
+    for i, n in enumerate([20, 100] if q else [20, 50, 100, 110, 80]):
+        pre = dict(base); pre["exec"] = []
+        cs.append({"id": "deep-%03d" % i, "pre": pre, "acts": [{"a": "parse", "text": "( " * n + "1 " + ") " * n}]})
+        cs.append({"id": "deepopen-%03d" % i, "pre": pre, "acts": [{"a": "parse", "text": "( " * n + "1 "}]})
+        cs.append({"id": "longtok-%03d" % i, "pre": pre, "acts": [{"a": "parse", "text": "x" * (n * 10) + " INT[" + "1," * n + "1] " + "9" * n}]})
+    for i, n in enumerate([2000] if q else [2000, 10000, 100000]):
+        pre = dict(base); pre["exec"] = []
+        cs.append({"id": "verydeep-%03d" % i, "pre": pre, "acts": [{"a": "parse_summary", "text": "( " * n + "1 " + ") " * (n // 2)}]})
+        cs.append({"id": "verylong-%03d" % i, "pre": pre, "acts": [{"a": "parse_summary", "text": "INT[" + "7," * n + "7] " + "y" * n + " " + ") " * 5 + "\u00e9" * n + "]"}]})
+    run_events(ctx, "random_text", cs)
+
+
+def run_c11(ctx):
+    q = ctx.tier == "quick"
+    cases = parser_model(ctx, 1, 5 if q else 7)
+    cs = []
+    for i, c in enumerate(cases):
+        if "tree" not in c:
+            continue
+        s = gen.empty_state()
+        s["exec"] = [c["tree"]]
+        s["code"] = [c["tree"], {"k": "int", "v": 5}]
+        s["int"] = [3, -4]
+        s["bool"] = [True, False]
+        cs.append({"id": "mctree-%06d" % i, "pre": s, "acts": [{"a": "roundtrip"}, {"a": "print"}, {"a": "steps", "k": 1}] if i % 50 else
+                   [{"a": "roundtrip"}, {"a": "print"}]})
+    run_events(ctx, "mc_trees", cs)
+    # random trees: parser-producible atoms, floats of every kind (exact round trip at the printed precision)
+    g = gen.Gen(ctx.seed + 95, ctx.registry)
+    cs = []
+    def tree(points):
+        if points <= 1:
+            k = g.r.random()
+            if k < 0.25: return {"k": "int", "v": g.int()}
+            if k < 0.4: return {"k": "bool", "v": g.r.random() < 0.5}
+            if k < 0.6: return {"k": "float", "v": g.float()}
+            if k < 0.8: return {"k": "ins", "v": g.r.choice(ctx.registry)}
+            return {"k": "id", "v": g.r.choice(["a", "foo", "x1", "foo-bar", "na\u00efve", "q.r", "T", "inf1"])}
+        rest, kids = points - 1, []
+        while rest > 0:
+            k = g.r.randint(1, rest); kids.append(tree(k)); rest -= k
+        return {"k": "list", "v": kids}
+    for i in range(200 if q else 20000):
+        s = gen.empty_state()
+        t = tree(g.r.randint(1, 25))
+        s["exec"] = [t]
+        s["code"] = [t]
+        # CODE.PRINT is exercised through the step (the spec models the printed NAME for float-free code)
+        s["exec"].append({"k": "ins", "v": "CODE.PRINT"})
+        cs.append({"id": "randtree-%06d" % i, "pre": s, "acts": [{"a": "roundtrip"}, {"a": "print"}, {"a": "steps", "k": 2 if t["k"] != "list" else 1}]})
+    run_events(ctx, "random_trees", cs)
+    # every tree emitted by pushr's own random code generator
+    gcases = [{"id": "gen-%05d" % i, "api": "gen", "ops": [{"m": "random_code_with_size", "args": [ctx.registry, g.r.randint(1, 40)]} for _ in range(10)]} for i in range(20 if q else 1500)]
+    gp = os.path.join(ctx.work, "gen_items.cases.ndjson"); ge = os.path.join(ctx.work, "gen_items.events.ndjson")
+    with open(gp, "w") as f:
+        for c in gcases: f.write(json.dumps(c) + "\n")
+    pv.exec_cases(gp, ge)
+    cs = []
+    for line in open(ge):
+        e = json.loads(line)
+        if e.get("ret", {}).get("t") == "some":
+            s = gen.empty_state(); s["exec"] = [e["ret"]["v"]]
+            cs.append({"id": "gentree-%s-%d" % (e["id"], e["i"]), "pre": s, "acts": [{"a": "roundtrip"}, {"a": "print"}]})
+    run_events(ctx, "generated_trees", cs)
+
+
+def rand_model(ctx, n):
+    cfg = 'SPECIFICATION Spec\nCONSTANTS\n MaxSize = %d\nINVARIANTS CodeContract BoundContract DecomposeContract BoolVecContract\nCHECK_DEADLOCK FALSE\n' % n
+    cases, st = pv.run_tlc_model("MC_Rand", cfg, ctx.work, workers=6, tag="mc_rand")
+    if "error" in st:
+        raise pv.ToolError("TLC failed on MC_Rand:\n" + st["error"])
+    ctx.stats["states"] += st["states"]; ctx.stats["transitions"] += st["transitions"]; ctx.stats["tlc_runs"].append(st)
+
+
+def run_c12(ctx):
+    import math
+    q = ctx.tier == "quick"
+    rand_model(ctx, 5 if q else 6)
+    g = gen.Gen(ctx.seed + 101, ctx.registry)
+    N = 12 if q else 60
+    draws = 8 if q else 120
+    cs = []
+    k = 0
+    for ilist in ([], ["INTEGER.+"], ctx.registry):
+        for bound in ({}, {"a": {"k": "int", "v": 1}, "b": {"k": "bool", "v": True}, "c": {"k": "list", "v": []}}):
+            for pbits, pzero in ((0, True), (981668463, False), (gen.f2b(1.0), False)):
+                st = gen.empty_state(); st["bind"] = bound; st["cfg"]["new_name_p"] = pbits
+                ops = []
+                for n in range(1, N + 1):
+                    for _ in range(max(1, draws // 4)):
+                        ops.append({"m": "random_code_with_size", "args": [ilist, n, sorted(bound), pzero]})
+                for m in range(0, N + 1):
+                    for _ in range(max(1, draws // 4)):
+                        ops.append({"m": "random_code", "args": [ilist, m, sorted(bound), pzero]})
+                cs.append({"id": "gencode-%03d" % k, "api": "gen", "state": st, "ops": ops}); k += 1
+    ops = [{"m": "decompose", "args": [n]} for n in range(1, N + 1) for _ in range(draws)]
+    cs.append({"id": "decompose", "api": "gen", "ops": ops})
+    run_events(ctx, "gen_code", cs, spec="TraceApi")
+    # CODE.RAND through the interpreter: limits around 0, 1, 2, the configured maximum, negative, extreme
+    cs = []
+    for i in range(150 if q else 6000):
+        s = g.state(depth=2)
+        s["cfg"]["max_rand_points"] = g.r.choice([25, 25, 25, 0, 1, 2, 3, -25, 60, 2147483647, -2147483648])
+        s["int"] = [g.r.choice([0, 1, 2, 3, 5, 24, 25, 26, 100, -1, -2, -30, 2147483647, -2147483648])] + s["int"]
+        if abs(s["cfg"]["max_rand_points"]) > 2000 and abs(s["int"][0]) > 2000:
+            s["int"][0] = 7
+        s["exec"] = [ins("CODE.RAND")]
+        cs.append({"id": "coderand-%05d" % i, "pre": s, "acts": [{"a": "step"}]})
+    run_events(ctx, "code_rand", cs)
+    # every generated program is executable (C01) and printable (C11)
+    cs = []
+    ep = os.path.join(ctx.work, "gen_code.events.ndjson")
+    items = []
+    for line in open(ep):
+        e = json.loads(line)
+        if e["act"]["m"].startswith("random_code") and e.get("ret", {}).get("t") == "some" and len(e["act"]["args"][0]) > 1:
+            items.append(e["ret"]["v"])
+    g.r.shuffle(items)
+    for i, it in enumerate(items[: (150 if q else 5000)]):
+        s = g.state(depth=2); s["exec"] = [it]
+        cs.append({"id": "genprog-%05d" % i, "pre": s, "acts": [{"a": "roundtrip"}, {"a": "steps", "k": 150}]})
+    run_events(ctx, "generated_programs", cs)
+
+
+def run_c13(ctx):
+    import math
+    q = ctx.tier == "quick"
+    rand_model(ctx, 5 if q else 6)
+    g = gen.Gen(ctx.seed + 111, ctx.registry)
+    fb = gen.f2b
+    N = 12 if q else 40
+    draws = 5 if q else 60
+    ops = []
+    sps = [0.0, 0.05, 0.12, 0.25, 0.5, 0.51, 0.75, 0.85, 1.0, -0.1, 1.5, float("nan"), float("inf"), -0.0]
+    for n in list(range(0, N + 1)) + [-1, -5, 100, 1000]:
+        for sp in sps:
+            for _ in range(draws if n <= N else 1):
+                ops.append({"m": "random_bool_vector", "args": [n, fb(sp)]})
+    for n in range(2, (10 if q else 30)):
+        for sp in (0.1, 0.3, 0.5):
+            ops.append({"m": "random_bool_vector_cover", "args": [n, fb(sp), int((30 + math.log(n)) * n) + 1]})
+    for n in [0, 1, 2, 5, N, -1]:
+        for (lo, hi) in [(0, 1), (0, 2), (-3, 4), (5, 5), (7, 3), (-2147483648, 2147483647), (2147483646, 2147483647), (-10, 10)]:
+            for _ in range(draws):
+                ops.append({"m": "random_int_vector", "args": [n, lo, hi]})
+    for (lo, hi) in [(0, 2), (-3, 4), (0, 10)]:
+        ops.append({"m": "random_int_vector_stats", "args": [5, lo, hi, 6 * 30 * (hi - lo)]})
+    for n in [0, 1, 3, N, -1, -100]:
+        for mean in (0.0, 1.5, -2.0, float("inf"), float("nan")):
+            for sd in (0.0, 0.5, 2.0, -1.0, -0.0, float("inf"), float("nan"), float("-inf")):
+                for _ in range(max(1, draws // 5)):
+                    ops.append({"m": "random_float_vector", "args": [n, fb(mean), fb(sd)]})
+    cs = [{"id": "genvec", "api": "gen", "ops": ops}]
+    # INTEGER.RAND / FLOAT.RAND / RANDBOUNDNAME generators under various configurations
+    k = 0
+    for (lo, hi) in [(-10, 10), (0, 1), (0, 2), (5, 5), (7, 3), (-2147483648, 2147483647), (3, 4)]:
+        for (flo, fhi) in [(-1.0, 1.0), (0.0, 0.5), (2.0, 2.0), (3.0, -3.0), (-0.0, 0.0)]:
+            st = gen.empty_state(); st["cfg"].update(min_i=lo, max_i=hi, min_f=fb(flo), max_f=fb(fhi))
+            o = [{"m": "random_integer", "args": [lo, hi]} for _ in range(draws)] + [{"m": "random_float", "args": [fb(flo), fb(fhi)]} for _ in range(draws)]
+            o.append({"m": "random_float_many", "args": [fb(flo), fb(fhi), 200]})
+            if hi - lo in (1, 2, 20):
+                o.append({"m": "random_integer_stats", "args": [lo, hi, 30 * (hi - lo) + 30]})
+            cs.append({"id": "genscalar-%03d" % k, "api": "gen", "state": st, "ops": o}); k += 1
+    for bound in ({}, {"a": {"k": "int", "v": 1}}, {"a": {"k": "int", "v": 1}, "b": {"k": "bool", "v": True}, "zz": {"k": "list", "v": []}}):
+        st = gen.empty_state(); st["bind"] = bound
+        cs.append({"id": "genname-%d" % len(bound), "api": "gen", "state": st, "ops": [{"m": "existing_random_name", "args": [sorted(bound)]} for _ in range(draws * 4)] + [{"m": "new_random_name", "args": []}]})
+    run_events(ctx, "gen_values", cs, spec="TraceApi")
+    # the RAND instructions through the interpreter
+    mc_stage(ctx, "rand_instr", RAND, dict(IntVals=[-1, 0, 1, 3, 5], FloatVals=[F["zero"], F["h"], F["one"], F["x15"], F["mone"], F["nan"], F["inf"]], DInt=3, DFloat=2))
+    cs = []
+    for i in range(100 if q else 6000):
+        s = g.state(depth=3)
+        name = g.r.choice(RAND)
+        s["int"] = [g.r.choice([0, 1, 2, 5, 17, -1, -3])] + [g.r.randint(-5, 20) for _ in range(2)] + s["int"]
+        s["float"] = [g.r.choice([fb(x) for x in (0.0, 0.3, 0.5, 0.9, 1.0, 1.2, -0.5, 2.0)] + [fb(float("nan"))]), g.float()] + s["float"]
+        s["exec"] = [ins(name)]
+        cs.append({"id": "randins-%05d" % i, "pre": s, "acts": [{"a": "step"}]})
+    run_events(ctx, "rand_instructions", cs)
+
+
 def all_instr_groups(ctx, small=True):
     """every registered instruction with operand stacks of every depth (frame / crash sweeps)"""
     reg = ctx.registry
@@ -482,7 +714,11 @@ def run_c01(ctx):
 PLANS = {
     "C01": dict(run=run_c01, judge=dict(owns_crash=True), rule="a case = (program, initial state); non-trivial = the recorded step reached an instruction or unpacked a list"),
     "C02": dict(run=run_c02),
+    "C03": dict(run=run_c03),
     "C04": dict(run=run_c04),
+    "C11": dict(run=run_c11),
+    "C12": dict(run=run_c12, judge=dict(owns_crash=True)),
+    "C13": dict(run=run_c13),
     "C05": dict(run=run_c05),
     "C06": dict(run=run_c06),
     "C07": dict(run=run_c07),
